@@ -1334,7 +1334,7 @@ def pp2(m, run):
 # ====================================================================================== C10: rotation on abstract shapes
 def _abs_shape_for_transform(e, pdim, npts, dim):
     """element number e of an abstract container: labelled control points, a start point labelled by the element it is evaluated on"""
-    b = Bag('rec:shape', dimension=dim, pdimension=pdim, _elem=e)
+    b = Bag('rec:shape', dimension=dim, pdimension=pdim, _elem=e, rational=False, type='spline')
     lab = lambda i, s: Tok('DEF', dep=frozenset([('dom', i, s)]))
     b._a['domain'] = [(lab(i, 0), lab(i, 1)) for i in range(pdim)] if pdim > 1 else (lab(0, 0), lab(0, 1))
     b._a['ctrlpts'] = [[Tok('DEF', dep=frozenset([('pt', e, k, c)])) for c in range(dim)] for k in range(npts)]
@@ -1413,7 +1413,7 @@ def rt3(m, run):
     from .skel import Sym
     fi = m.func('operations.rotate')
     for axis in (0, 1, 2):
-        b = Bag('rec:shape', dimension=3, pdimension=1)
+        b = Bag('rec:shape', dimension=3, pdimension=1, rational=False, type='spline')
         b._a['domain'] = [DEF(), DEF()]
         b._a['ctrlpts'] = [[Sym('p%d_%d' % (k, c)) for c in range(3)] for k in range(2)]
         b._a['evaluate_single'] = Py(lambda sk, node, prm: [Sym('o%d' % c) for c in range(3)], 'evaluate_single')
@@ -1494,7 +1494,7 @@ def tr3(m, run):
         fi = m.func('operations.' + name)
         elems = []
         for e in range(2):
-            b = Bag('rec:shape', dimension=3, pdimension=1, ctrlpts_size=2)
+            b = Bag('rec:shape', dimension=3, pdimension=1, ctrlpts_size=2, rational=False, type='spline')
             b._a['ctrlpts'] = [[Sym('p%d_%d_%d' % (e, k, c)) for c in range(3)] for k in range(2)]
             b._a['__iter__'] = [b]
             elems.append(b)
@@ -5234,3 +5234,95 @@ def ck3(m, run, classes, keys_of, rule='CK3.cache-keys-exist-on-new-objects-and-
             raise AnalysisError('%s: interpreter met an unsupported construct: %s' % (key, ex))
         ci = m.classes[cls]
         run.ob(rule, key, why is None, 'present and empty on a new object and on its deep copy' if why is None else why, 'geomdl/%s.py:%d in %s.%s' % (cls[0], ci.node.lineno, cls[0], cls[1]))
+
+
+
+# ====================================================================================== C10: translation and scaling through the real classes
+def tr4(m, run, rule='TR4.transform-on-real-classes'):
+    """TR4: operations.translate / operations.scale interpreted (in place and on a copy) on a real multi.CurveContainer holding a B-spline and
+    a rational curve, all built by the classes' own constructors and setters with symbolic coordinates and weights: afterwards the ctrlpts
+    getter of every element gives p_c + vec_c (p_c * multiplier), the weights getter the weights it had, and the homogeneous points are
+    (new point * weight, weight); with inplace=False the input keeps its points and the result is another object"""
+    from .skel import Sym
+    from .poly import Poly
+    npts, deg = 3, 2
+    for name, mk_arg, want, doc in (('translate', lambda: [Sym('v%d' % c) for c in range(3)], lambda p, c: p + Poly.atom('v%d' % c), 'p[c] + vec[c]'),
+                                    ('scale', lambda: Sym('s'), lambda p, c: p * Poly.atom('s'), 'p[c] * multiplier')):
+        fi = m.func('operations.' + name)
+        for inplace in (True, False):
+            key = 'operations.%s :: real container of a B-spline and a rational curve, inplace=%s' % (name, inplace)
+            ab = dict(STD_ABSTRACTED)
+            ab[('knotvector', 'normalize')] = Py(lambda sk, node, kv, *a, **k: [Ord(x.rank) for x in kv], 'knotvector.normalize')
+            sk = SK(m, ab)
+            sk.exact = True
+            sk.construct = True
+            sk.follow_deepcopy = True
+            why = None
+
+            def setp(obj, nm, value):
+                sk.call(m.lookup(obj._cls, nm, 'setters'), [obj, value], {})
+
+            def getp(obj, nm):
+                return sk.call(m.lookup(obj._cls, nm, 'getters'), [obj], {})
+            try:
+                elems, P, W = [], [], []
+                for e, mod in enumerate(('BSpline', 'NURBS')):
+                    o_ = sk.apply(('class', (mod, 'Curve')), [], {}, None)
+                    setp(o_, 'degree', deg)
+                    p_ = [[Poly.atom('p%d_%d_%d' % (e, k, c)) for c in range(3)] for k in range(npts)]
+                    w_ = [Poly.atom('w%d' % k) for k in range(npts)] if mod == 'NURBS' else None
+                    rows = [[Sym(x) for x in r] for r in p_] if w_ is None else [[Sym(x * w_[k]) for x in r] + [Sym(w_[k])] for k, r in enumerate(p_)]
+                    sk.call(m.lookup(o_._cls, 'set_ctrlpts', 'methods'), [o_, rows], {})
+                    setp(o_, 'knotvector', [Ord(r) for r in (0, 0, 0, 1, 1, 1)])
+                    elems.append(o_)
+                    P.append(p_)
+                    W.append(w_)
+                cont = sk.apply(('class', ('multi', 'CurveContainer')), list(elems), {}, None)
+                out = sk.call(fi, [cont, mk_arg()], {'inplace': inplace})
+                if inplace:
+                    res = elems
+                    if out is not cont:
+                        why = 'inplace=True does not return the container passed in'
+                else:
+                    if out is cont or not isinstance(out, Bag):
+                        why = 'inplace=False returns the input itself'
+                    else:
+                        res = list(out._a.get('_elements', []))
+                        if len(res) != 2 or any(r is e_ for r in res for e_ in elems):
+                            why = 'inplace=False returns a container that shares its elements with the input'
+
+                def views(o_, p_, w_, what):
+                    cp = getp(o_, 'ctrlpts')
+                    if not isinstance(cp, (list, tuple)) or len(cp) != npts:
+                        return '%s: %r control points' % (what, len(cp) if isinstance(cp, (list, tuple)) else cp)
+                    ww = getp(o_, 'weights') if w_ is not None else None
+                    pw = getp(o_, 'ctrlptsw') if w_ is not None else None
+                    for k in range(npts):
+                        if len(cp[k]) != 3:
+                            return '%s: point %d has %d coordinates' % (what, k, len(cp[k]))
+                        for c in range(3):
+                            s_ = _as_sym(cp[k][c])
+                            if s_ is None or not s_.same(Sym(p_[k][c])):
+                                return '%s: coordinate %d of point %d is %r, expected %r' % (what, c, k, cp[k][c], p_[k][c])
+                            if w_ is not None:
+                                h_ = _as_sym(pw[k][c])
+                                if h_ is None or not h_.same(Sym(p_[k][c] * w_[k])):
+                                    return '%s: homogeneous coordinate %d of point %d is %r, expected %r' % (what, c, k, pw[k][c], p_[k][c] * w_[k])
+                        if w_ is not None:
+                            s_ = _as_sym(ww[k])
+                            if s_ is None or not s_.same(Sym(w_[k])):
+                                return '%s: weight %d is %r, expected %r (a rigid or uniform transformation leaves the weights alone)' % (what, k, ww[k], w_[k])
+                    return None
+                for e in range(2):
+                    if why:
+                        break
+                    moved = [[want(P[e][k][c], c) for c in range(3)] for k in range(npts)]
+                    why = views(res[e], moved, W[e], 'element %d (%s) of the result' % (e, ('B-spline', 'rational')[e]))
+                    if why is None and not inplace:
+                        why = views(elems[e], P[e], W[e], 'element %d of the input after inplace=False' % e)
+            except Violation as v:
+                why = '%s %s' % (v.msg, v.where())
+            except Unsupported as ex:
+                raise AnalysisError('%s: interpreter met an unsupported construct: %s' % (key, ex))
+            run.ob(rule, key, why is None, 'every coordinate becomes %s, weights kept%s' % (doc, '' if inplace else ', input untouched') if why is None else why,
+                   'geomdl/operations.py:%d in %s' % (fi.node.lineno, fi.key))
